@@ -663,7 +663,7 @@ def _get_duration(self: Component) -> Optional[timedelta]:
     """Getter for property DURATION."""
     default = object()
     duration = self.get("duration", default)
-    if isinstance(duration, vDDDTypes):
+    if isinstance(duration, vDDDTypes) and isinstance(duration.dt, timedelta):
         return duration.dt
     if isinstance(duration, vDuration):
         return duration.td
